@@ -119,7 +119,11 @@ func cmdDebug(args []string) {
 			fmt.Printf("   %-8s %-70s paths=%d %v %s\n", status, strings.TrimPrefix(o.Name, u.Name), o.Paths, o.Tags, o.Pos)
 			if len(o.Failures) > 0 && os.Getenv("GOVC_DUMP") != "" {
 				f := o.Failures[0]
-				path, _ := writeQueryFile("/verif/out/debug", o.Name, u.decls, f.Asserts, f.Values)
+				dd := u.decls
+				if f.NDecls > 0 && f.NDecls <= len(dd) {
+					dd = dd[:f.NDecls]
+				}
+				path, _ := writeQueryFile("/verif/out/debug", o.Name, dd, f.Asserts, f.Values)
 				fmt.Println("      dumped", path)
 				fmt.Println("      trace:", strings.Join(f.Trace, " "))
 			}
